@@ -137,21 +137,35 @@ def priority_pipeline(ctx, rep, F):
                f"{tail}: " + ("stable - sections of equal priority keep their creation order" if "unstable" not in tail else "unstable: equal keys may be permuted"), a.file, t["l"])
     cls = F.closures_of(OS + "OutputOrderBuilder::add_section")
     key_cl = next((c for c in cls if c.locals[0].strip() == "u16"), None)
+    cmp_cl = next((c for c in cls if c.locals[0].strip().endswith("cmp::Ordering")), None)
     map_cl = next((c for c in cls if c.locals[0].strip().startswith("(u16")), None)
-    if key_cl is None or map_cl is None:
-        rep.lost("priority-pipeline", "the key closure (-> u16) / the mapping closure (-> (u16, OutputSectionId)) of add_section")
+    if (key_cl is None and cmp_cl is None) or map_cl is None:
+        rep.lost("priority-pipeline", "the key closure (-> u16) or comparator (-> Ordering) / the mapping closure (-> (u16, OutputSectionId)) of add_section")
         return
-    kf = P.flow(key_cl)
-    ret = render(expr_tree(P, key_cl, ("c", (0, [])), depth=4, expand_params=0))
-    asc = True
-    for blk in key_cl.blocks:
-        for st in blk["s"]:
-            if st["k"] == "assign" and st["rv"]["k"] in ("bin", "un"):
+    if key_cl is None:
+        # comparator form: sort_by(|a, b| a.0.cmp(&b.0)) - ascending iff the receiver comes from the first parameter and the argument from the second
+        from mir import place_chain
+        cf = P.flow(cmp_cl)
+        cmps = [(bi, t) for bi, t in cf.calls() if (callee_key(t["f"]) or "").split("::")[-1] in ("cmp", "partial_cmp")]
+        ok_cmp = False
+        detail = f"{len(cmps)} cmp call(s)"
+        if len(cmps) == 1 and len(cf_calls := list(cf.calls())) == 1:
+            t = cmps[0][1]
+            c0, c1 = place_chain(cf, t["args"][0]), place_chain(cf, t["args"][1])
+            ok_cmp = c0[1] == {2} and c1[1] == {3} and c0[0][-1:] == ["0"] and c1[0][-1:] == ["0"]
+            detail = f"cmp(receiver from parameter {sorted(c0[1])} field {c0[0][-1:]}, argument from parameter {sorted(c1[1])} field {c1[0][-1:]})"
+        rep.ob("priority-pipeline", "emit:key", ok_cmp, f"comparator orders by the first component, ascending: {detail}", cmp_cl.file, cmp_cl.line)
+    if key_cl is not None:
+        ret = render(expr_tree(P, key_cl, ("c", (0, [])), depth=4, expand_params=0))
+        asc = True
+        for blk in key_cl.blocks:
+            for st in blk["s"]:
+                if st["k"] == "assign" and st["rv"]["k"] in ("bin", "un"):
+                    asc = False
+            if blk["t"]["k"] == "call":
                 asc = False
-        if blk["t"]["k"] == "call":
-            asc = False
-    first = any(st["k"] == "assign" and st["rv"]["k"] == "ref" and st["rv"]["p"][1][-1:] == [".0"] for blk in key_cl.blocks for st in blk["s"]) or ".0" in ret
-    rep.ob("priority-pipeline", "emit:key", asc and first, f"sort key = the tuple's first component, unmodified (ascending priority): {ret}", key_cl.file, key_cl.line)
+        first = any(st["k"] == "assign" and st["rv"]["k"] == "ref" and st["rv"]["p"][1][-1:] == [".0"] for blk in key_cl.blocks for st in blk["s"]) or ".0" in ret
+        rep.ob("priority-pipeline", "emit:key", asc and first, f"sort key = the tuple's first component, unmodified (ascending priority): {ret}", key_cl.file, key_cl.line)
     mf = P.flow(map_cl)
     comp0 = None
     for blk in map_cl.blocks:
